@@ -240,7 +240,8 @@ class TaskGenerator(_OrigTaskGen):
     def __init__(self, exprs, gran, mutator, max_depth=None):
         super().__init__(exprs, gran, mutator, max_depth)
         log('taskgen', digest=dig(exprs), dup_ids=dup_ids(exprs), mutator=type(mutator).__name__, gran=self.gran,
-            nsubsets=len(self.subsets), parallel=self.pickled_exprs is not None)
+            nsubsets=len(self.subsets), parallel=self.pickled_exprs is not None, mid=getattr(mutator, '_verif_id', None),
+            num_filtered=self.num_filtered, nexprs=nodes.count_exprs(exprs), first=gran is None)
 
     def __next__(self):
         t = super().__next__()
@@ -248,7 +249,7 @@ class TaskGenerator(_OrigTaskGen):
         return t
 
     def update(self, exprs):
-        log('ddmin_update', digest=dig(exprs))
+        log('ddmin_update', digest=dig(exprs), nexprs=nodes.count_exprs(exprs))
         return super().update(exprs)
 
     def reset(self, index):
@@ -257,6 +258,21 @@ class TaskGenerator(_OrigTaskGen):
 
 
 sd.TaskGenerator = TaskGenerator
+
+# the pass lists of the ddmin strategy: every mutator instance gets a number (stage * 1000 + position)
+_orig_ddmin_passes = sd.ddmin_passes
+
+
+def ddmin_passes():
+    ps = _orig_ddmin_passes()
+    for st, ms in enumerate(ps):
+        for k, m in enumerate(ms):
+            m._verif_id = (st + 1) * 1000 + k
+    log('ddmin_passes', stages=[[m._verif_id for m in ms] for ms in ps], names=[[str(m) for m in ms] for ms in ps])
+    return ps
+
+
+sd.ddmin_passes = ddmin_passes
 
 # one call per consumed result, in the main process, after the result has been dealt with
 _orig_progress = sd._print_progress
